@@ -38,9 +38,11 @@ func TestMain(m *testing.M) {
 		"keys: one length per Map (13/21/37/45; AggFlowMap 13+37 or 21+45), key i = drawn template XOR (i * odd multiplier) at a drawn offset, plus the all-zero and all-0xff keys; every insert goes through a caller buffer that is reused or scribbled over afterwards; " +
 		"counters 0, 1, small, 2^32, 2^63, 2^64-1, random (sums wrap); " +
 		"after every step Len and sampled lookups, a full check (iteration yields every model key exactly once with the model value, nothing else; Get of every model key) whenever the table is growing, after every merge, always for <= 256 entries and every 8th step otherwise; " +
+		"iterins: an iteration with 1-6 fresh inserts (or as many as start a growth) between two Next calls — every entry present at the start must be produced exactly once with its value, entries inserted meanwhile at most once; " +
 		"non-trivial = a full iteration or a Merge was checked while source or destination table was growing; distinct by the hash of the operation trace")
 	evid.Assume("a Map holds keys of one length only (no caller mixes lengths in one Map); iteration is never interleaved with writes to the same map (no caller does that)",
 		"Set on an existing key replaces its counters (csvimport usage; documented as 'updates any existing valent'); SetOrUpdate and Merge add with wrapping uint64 arithmetic",
+		"insertion during an iteration is taken to be permitted as in the Go runtime map this type is a port of (no caller in goProbe does it; the unchanged implementation honours it); updates of existing keys or merges during an iteration are not exercised",
 		"Clear / ClearFast are terminal in all callers; they are only applied to a Merge source after the merge (as engine/aggregate.go does) and nothing is demanded of the cleared map",
 		"the source map of a Merge is not required to stay unchanged (callers discard it); only the destination is compared",
 		"same-size growth is unreachable through the public API: the map has no delete, bucket chains are always densely packed, so nOverflow >= nBuckets needs more than 8*nBuckets entries while growth by load factor starts at 6.5*nBuckets; the class counter for it is expected to stay 0",
@@ -652,6 +654,85 @@ func (m *machine) actIter(t *rapid.T) {
 	m.full(s, "iter action")
 }
 
+// actIterInsert iterates a map and inserts fresh keys between two Next calls (the map is a port of the Go
+// runtime map, whose iterators tolerate insertion: every entry present when the iteration started is
+// produced exactly once with its value, an entry inserted meanwhile at most once). The inserts are sized
+// to start a growth, or to move one along, underneath the iterator.
+func (m *machine) actIterInsert(t *rapid.T) {
+	m.t = t
+	s := m.pick("sub")
+	n0 := len(s.model)
+	if n0 == 0 || n0+40 > m.maxPop {
+		m.full(s, "iter action")
+		return
+	}
+	at := rapid.IntRange(0, n0-1).Draw(t, "insertAfter")
+	cnt := rapid.IntRange(1, 6).Draw(t, "inserts")
+	if r, _ := s.toTrigger(); r >= 0 && r < 30 && rapid.Bool().Draw(t, "crossTrigger") {
+		cnt = r + 1 + rapid.IntRange(0, 3).Draw(t, "beyond")
+	}
+	v := types.Counters{BytesRcvd: rapid.Uint64Range(1, 1000).Draw(t, "v"), PacketsRcvd: 1}
+	m.op(";I%s@%d+%d", s.name, at, cnt)
+	before := s.m.VerifState()
+	s.epoch++
+	start := make(map[string]bool, n0)
+	for _, k := range s.order {
+		start[k] = true
+	}
+	ctx := fmt.Sprintf("iteration with %d inserts after the %d. entry (map state at the start %+v)", cnt, at+1, before)
+	seen, fresh := 0, 0
+	it := s.m.Iter()
+	for pos := 0; ; pos++ {
+		if pos == at+1 {
+			for i := 0; i < cnt; i++ {
+				m.put(s, s.freshIdx(), v, false, false, bufShared)
+			}
+		}
+		var more bool
+		m.guard(s, "Iter.Next", func() { more = it.Next() })
+		if !more {
+			break
+		}
+		k := string(it.Key())
+		e := s.model[k]
+		if e == nil {
+			t.Fatalf("%s", evid.Sig("C18:iter-invented", "%s: yields key %x that was never inserted %s", ctx, k, m.where(s)))
+		}
+		if e.stamp == s.epoch {
+			t.Fatalf("%s", evid.Sig("C18:iter-once", "%s: yields key %x twice %s", ctx, k, m.where(s)))
+		}
+		e.stamp = s.epoch
+		if got := it.Val(); got != e.val {
+			t.Fatalf("%s", evid.Sig("C18:iter-value", "%s: yields key %x with {%v}, want {%v} %s", ctx, k, got, e.val, m.where(s)))
+		}
+		if start[k] {
+			seen++
+		} else {
+			fresh++
+		}
+		if seen+fresh > len(s.model) {
+			t.Fatalf("%s", evid.Sig("C18:iter-once", "%s: yields more entries than the map holds %s", ctx, m.where(s)))
+		}
+	}
+	if seen != n0 {
+		missing := ""
+		for _, k := range s.order {
+			if start[k] && s.model[k].stamp != s.epoch {
+				missing = fmt.Sprintf("%x", k)
+				break
+			}
+		}
+		t.Fatalf("%s", evid.Sig("C18:iter-complete", "%s: yields %d of the %d entries that were in the map when it started; first missing key %s %s", ctx, seen, n0, missing, m.where(s)))
+	}
+	after := s.track()
+	m.nIter++
+	m.stops["iter-with-inserts"]++
+	if before.Growing || after.Growing || after.Buckets != before.Buckets {
+		m.stops["iter-with-inserts:table-grew-or-was-growing"]++
+		m.ntIterGrowing++
+	}
+}
+
 // buildSource creates a second map over the same key universe with its own model.
 func (m *machine) buildSource(t *rapid.T, dst *sub, label string, src *hashmap.Map, hint int) *sub {
 	seed := dst.seed
@@ -1149,6 +1230,7 @@ func runMap(t *rapid.T, large bool) {
 		"edge3":   m.actEdge,
 		"get":     m.actGet,
 		"iter":    m.actIter,
+		"iterins": m.actIterInsert,
 		"merge":   m.actMerge,
 		"merge2":  m.actMerge,
 		"rebuild": m.actRebuild,
@@ -1195,6 +1277,7 @@ func runAgg(t *rapid.T) {
 		"edge3":   m.actEdge,
 		"get":     m.actGet,
 		"iter":    m.actIter,
+		"iterins": m.actIterInsert,
 		"merge":   m.actMerge,
 		"merge2":  m.actMerge,
 		"meta":    m.actMeta,
